@@ -2841,6 +2841,9 @@ class FnTranslate(FnLower2):
             self.fn = Skeleton(self, self.fn, self.opts["skeleton"]).run()
         if self.opts.get("iters"):
             self.fn = dict(self.fn); self.fn["body"] = desugar_iters(self.fn["body"], self.fail, [0])
+        if self.opts.get("enum_iters"):                                     # phase 4k: `.iter().enumerate()` / `.chunks(k).enumerate()` chains (tools/rs2lean_rns4k.py)
+            from rs2lean_rns4k import desugar_enumerate
+            self.fn = dict(self.fn); self.fn["body"] = desugar_enumerate(self.fn["body"], self.fail, self.fn["name"])
         if self.opts.get("elem_borrows"):                                   # phase 4k: `let d = &mut x[i];` (tools/rs2lean_rns4k.py)
             from rs2lean_rns4k import desugar_elem_borrows
             self.fn = dict(self.fn); self.fn["body"] = desugar_elem_borrows(self.fn["body"], self.fail)
